@@ -1297,7 +1297,7 @@ def attr_fixed_cases() -> list:
         {'kind': 'attr', 'code': 40, 'flags': 0xC0, 'hex': '0500220001001e8020010db8000200020000000000000000000018000c0006401810000000', 'asn4': True, 'source': 'pinned:srv6-unknown-sub-sub-tlv', 'encoder': False},
         {'kind': 'attr', 'code': 23, 'flags': 0xC0, 'hex': '000f00240c050000000000640d06100005dc01008000110009060000000000010106000003e81100', 'asn4': True, 'source': 'pinned:sr-policy-unknown-sub-tlv', 'encoder': False},
         {'kind': 'attr', 'code': 16, 'flags': 0xC0, 'hex': '800600007fc00000', 'asn4': True, 'source': 'pinned:traffic-rate-nan', 'encoder': False},
-        {'kind': 'attr', 'code': 2, 'flags': 0x40, 'hex': '0100', 'asn4': False, 'source': 'pinned:as-path-empty-segment', 'encoder': False},
+        # (an AS_PATH with an empty segment, value 0100, is not canonical input - RFC 7606 calls it malformed - and is not pinned: acceptance of malformed attributes is C08's subject)
     ]
     # attribute codes the vectors on disk do not reach
     for code, flags, raw, asn4 in (
